@@ -133,7 +133,10 @@ def check_text_roundtrip(case):
     scale = case.get("scale", "UTC")
     if scale != "UTC":
         # the same instant under another label: the epoch of a TLE is its UTC reading
+        utc = orb.date.datetime
         orb.date = orb.date.change_scale(scale)
+        if abs((orb.date.change_scale("UTC").datetime - utc).total_seconds()) > 1e-6:
+            return dict(nt=False, cls=[f"scale:{scale}", "relabel-moves-the-instant(C03)"])
     out = str(Tle.from_orbit(orb))
     d = text_diff(text, out)
     if d:
@@ -361,8 +364,15 @@ def check_writer(case):
         kwargs = dict(norad_id=norad, cospar_id=cospar, name=meta["name"])
     date = Date(epoch)
     scale = case.get("scale", "UTC")
+    relabel_error = 0.0
     if scale != "UTC":
         date = date.change_scale(scale)  # the same instant, labelled in another scale
+        # ... provided Date.change_scale itself keeps the instant: that is C03/C04's subject.  Where it
+        # does not (UT1 label within milliseconds of 0h UTC: the day-tabulated UT1-UTC of the neighbouring
+        # day is picked, 2.6 ms in 1976) the case is set aside here, labelled, not judged.
+        relabel_error = abs((date.change_scale("UTC").datetime - epoch).total_seconds())
+        if relabel_error > 1e-6:
+            return dict(nt=False, cls=[f"scale:{scale}", "relabel-moves-the-instant(C03)"])
     orb = Orbit(coords, date, "TLE", "TEME", "Sgp4", **data)
     native = case["form"] == "tle" and case["frame"] == "TEME"
     if not native:
@@ -979,7 +989,7 @@ FACETS = [
     Facet("writer_real_eop", lambda s, t: writer_case(real_eop=True), check_writer, setup=_eop_real,
           rule="every case; real IERS tables (1974-2016): date labelled UTC/TT/TDB/GPS/TAI/UT1, epochs massed on the "
                "turn of the year, UTC midnights, leap-second midnights and day 366",
-          quick=(4, 300), thorough=(8, 4000)),
+          quick=(4, 200), thorough=(8, 4000)),
     Facet("reject", lambda s, t: reject_case(), check_reject, setup=_eop,
           rule="same rule as text_roundtrip; per case all ~900 digit replacements, ~140 deletions, ~270 "
                "insertions, 28 renumberings and 12 paddings are tried",
